@@ -55,14 +55,26 @@ DiffType(p, f, facts, t, pass) ==
           s \in {x \in Range(obsF) \cap Range(expF) : Bag(obsF)[x] # Bag(expF)[x]}}
 
 \* idxs = indices of the files handed to the pass
+\* Two compilation units of one tree may declare the same package and type name (two modules of a build, a copied
+\* module): each is a declared type and gets its own entry. The entries of such a group are told apart by their source
+\* path in the full pass; the identifier pass has no path slot, so there an entry is accepted for a file of the group
+\* when it matches that file's declaration.
 DiffDecl(p, rec, idxs, o, pass) ==
   IF o.panic THEN {Item(p, "panic", pass, {})}
   ELSE
     LET sel == {i \in idxs : Selected(rec.files[i])}
+        same(i, j) == rec.files[j].pkg = rec.files[i].pkg /\ rec.files[j].unit.name = rec.files[i].unit.name
+        group(i) == {j \in sel : same(i, j)}
         match(i) == {k \in DOMAIN o.types : o.types[k].pkg = rec.files[i].pkg /\ o.types[k].name = rec.files[i].unit.name}
-    IN  UNION {IF match(i) = {} THEN {Item(p, "missing-type", pass \o ":" \o rec.files[i].unit.name, {})}
-               ELSE IF Cardinality(match(i)) > 1 THEN {Item(p, "duplicated-type", pass \o ":" \o rec.files[i].unit.name, {})}
-               ELSE DiffType(p, rec.files[i], rec.facts[i], o.types[CHOOSE k \in match(i) : TRUE], pass) : i \in sel} \cup
+        byPath(i) == {k \in match(i) : o.types[k].file = rec.facts[i].relPath}
+        cand(i) == IF pass = "full" /\ byPath(i) # {} THEN byPath(i) ELSE match(i)
+        w(i) == pass \o ":" \o rec.files[i].unit.name
+    IN  UNION {IF Cardinality(match(i)) < Cardinality(group(i)) THEN {Item(p, "missing-type", w(i), {})}
+               ELSE IF Cardinality(match(i)) > Cardinality(group(i)) THEN {Item(p, "duplicated-type", w(i), {})}
+               ELSE IF Cardinality(group(i)) = 1
+                    THEN DiffType(p, rec.files[i], rec.facts[i], o.types[CHOOSE k \in match(i) : TRUE], pass)
+               ELSE IF \E k \in cand(i) : DiffType(p, rec.files[i], rec.facts[i], o.types[k], pass) = {} THEN {}
+               ELSE DiffType(p, rec.files[i], rec.facts[i], o.types[CHOOSE k \in cand(i) : TRUE], pass) : i \in sel} \cup
         {Item(p, "undeclared-type", pass \o ":" \o o.types[k].pkg \o "." \o o.types[k].name, {}) :
             k \in {k \in DOMAIN o.types : \A i \in sel : k \notin match(i)}}
 
